@@ -93,6 +93,20 @@ struct VCondVar {
 		}
 		return true;
 	}
+	// the remaining std::condition_variable interface, so that code written against it compiles with this policy; the deadline
+	// is "whenever the engine decides the timeout fires" (time is a nondeterministic stub)
+	template <class Lock> void wait(Lock & lock) { vf_cv_wait(this, lock.mutex()); }
+	template <class Lock, class Rep, class Period>
+	std::cv_status wait_for(Lock & lock, const std::chrono::duration<Rep, Period> &) { return vf_cv_wait_for(this, lock.mutex()) ? std::cv_status::no_timeout : std::cv_status::timeout; }
+	template <class Lock, class Clock, class Duration>
+	std::cv_status wait_until(Lock & lock, const std::chrono::time_point<Clock, Duration> &) { return vf_cv_wait_for(this, lock.mutex()) ? std::cv_status::no_timeout : std::cv_status::timeout; }
+	template <class Lock, class Clock, class Duration, class Predicate>
+	bool wait_until(Lock & lock, const std::chrono::time_point<Clock, Duration> &, Predicate pred) {
+		while(! pred()) {
+			if(! vf_cv_wait_for(this, lock.mutex())) return pred();
+		}
+		return true;
+	}
 	char pad;
 };
 
